@@ -656,7 +656,8 @@ class ObjTranslator:
 
     def __init__(self, fn, *, src_file, lean_name, kind, siblings, externals=(), ignored_calls=(), params=None,
                  has_self=True, stop_before=None, result_locals=None, doc="", method_externals=(), consts=None,
-                 state=None, state_siblings=None, enter_ok=True, operators=None, constructors=None, owner_cls=None):
+                 state=None, state_siblings=None, enter_ok=True, operators=None, constructors=None, owner_cls=None,
+                 module_tables=None):
         self.fn, self.src_file, self.lean_name, self.kind = fn, src_file, lean_name, kind
         self.siblings: dict[str, Sibling] = siblings
         self.externals, self.ignored_calls = set(externals), set(ignored_calls)
@@ -672,6 +673,7 @@ class ObjTranslator:
         self.operators: dict[str, Sibling] = dict(operators or {})
         self.constructors: dict[str, Sibling] = dict(constructors or {})     # class name -> its `<Cls>_new`
         self.owner_cls = owner_cls
+        self.module_tables: dict = dict(module_tables or {})
         self.has_self = has_self
         self.params = params
         self.stop_before = stop_before          # predicate on a statement: translation ends before it
@@ -810,6 +812,12 @@ class ObjTranslator:
             if isinstance(e.slice, ast.Slice):
                 self.fail(e, "slice")
             return f"index {self.atom(e.value)} {self.atom(e.slice)}", False
+        if isinstance(e, ast.Attribute) and isinstance(e.value, ast.Name) and (e.value.id, e.attr) in self.module_tables:
+            # a table of another module (`constant.FORMAT_MAP`), inlined as it is in the source now: a dict whose keys /
+            # values are the string literals, or the source text of anything else (class expressions)
+            ps = self.module_tables[(e.value.id, e.attr)]
+            items = ", ".join(f"((OVal.str {json.dumps(k)}), (OVal.str {json.dumps(v)}))" for k, v in ps)
+            return f"(OVal.dict [{items}])", True
         if isinstance(e, ast.Attribute):
             if (self.is_self(e.value) or self.same_class(e.value)) and e.attr in self.siblings and self.siblings[e.attr].is_property:
                 sb = self.siblings[e.attr]
@@ -875,6 +883,8 @@ class ObjTranslator:
                 return f"timedeltaDays {self.atom(a[0])}", False
             if n == "getattr" and len(a) == 2:
                 return f"getattrW W {self.atom(a[0])} {self.atom(a[1])}", False
+            if n == "getattr" and len(a) == 3:
+                return f"getattrD W {self.atom(a[0])} {self.atom(a[1])} {self.atom(a[2])}", False
             if n in self.siblings and not self.siblings[n].is_property and self.siblings[n].kind == "fn":
                 sb = self.siblings[n]
                 if len(a) != sb.n_args:
@@ -889,6 +899,8 @@ class ObjTranslator:
         if isinstance(f, ast.Attribute):
             if f.attr == "get" and len(a) == 1:
                 return f"dictGet {self.atom(f.value)} {self.atom(a[0])}", False
+            if f.attr == "items" and not a:
+                return f"dictItems {self.atom(f.value)}", False
             if f.attr == "format" and isinstance(f.value, ast.Constant) and isinstance(f.value.value, str):
                 return f"strFormat {self.atom(f.value)} {self.args_list(a)}", False
             if f.attr in self.method_externals and not self.is_self(f.value):
@@ -946,7 +958,11 @@ class ObjTranslator:
             if n == "bool" and len(a) == 1:
                 return f"(← truthy {self.atom(a[0])})"
             if n == "issubclass" and len(a) == 2:
-                return f"(← W.issubclass {self.atom(a[0])} {self.cls_list(a[1])})"
+                try:
+                    return f"(← W.issubclass {self.atom(a[0])} {self.cls_list(a[1])})"
+                except Untranslatable:
+                    # the classes are a computed value (a key of a table): the world answers for that value
+                    return f"(← truthy (← W.ext \"issubclass\" [{self.atom(a[0])}, {self.atom(a[1])}]))"
             if n == "hasattr" and len(a) == 2:
                 return f"(← hasattrW W {self.atom(a[0])} {self.atom(a[1])})"
         return f"(← truthy {self.atom(e)})"
@@ -1361,7 +1377,8 @@ def gen_group(repo: Path, notes: list, *, src_file: str, cls_name: str | None, f
                                method_externals=spec.get("method_externals", ()), consts=spec.get("consts"),
                                state=spec.get("state"), state_siblings=spec.get("state_siblings"),
                                enter_ok=spec.get("enter_ok", True), operators=spec.get("operators"),
-                               constructors=spec.get("constructors"), owner_cls=spec.get("cls", cls_name))
+                               constructors=spec.get("constructors"), owner_cls=spec.get("cls", cls_name),
+                               module_tables=spec.get("module_tables"))
             out.append(tr.translate() + "\n")
         except Untranslatable as e:
             notes.append(f"untranslatable {e} ({cls_name or ns}.{py})")
@@ -1669,6 +1686,43 @@ def gen_parse(repo: Path, notes: list, gate_ok: bool) -> str:
     return "\n".join(out + body + ["end Utv.Gen.Parse", ""])
 
 
+def _constant_tables(repo: Path) -> dict:
+    """(module alias, name) -> pairs, for the dict tables of specs/json_schema/constant.py"""
+    out = {}
+    try:
+        tree = ast.parse((repo / "utype/specs/json_schema/constant.py").read_text())
+    except Exception:
+        return out
+    for node in tree.body:
+        if isinstance(node, ast.Assign) and len(node.targets) == 1 and isinstance(node.targets[0], ast.Name) \
+                and isinstance(node.value, ast.Dict) and all(k is not None for k in node.value.keys):
+            ps = []
+            ok = True
+            for k, v in zip(node.value.keys, node.value.values):
+                kk = k.value if isinstance(k, ast.Constant) and isinstance(k.value, str) else ast.unparse(k)
+                if isinstance(v, ast.Constant) and isinstance(v.value, str):
+                    ps.append((kk, v.value))
+                elif isinstance(v, (ast.Dict, ast.Name)):
+                    ok = False
+                    break
+                else:
+                    ps.append((kk, ast.unparse(v)))
+            if ok:
+                out[("constant", node.targets[0].id)] = ps
+    return out
+
+
+def gen_generator(repo: Path, notes: list, gate_ok: bool) -> str:
+    """Gen/Generator.lean: `JsonSchemaGenerator._get_format / _get_primitive` (first table entry whose classes cover the
+    origin; the tables of constant.py are inlined)"""
+    return gen_group(
+        repo, notes, src_file="utype/specs/json_schema/generator.py", cls_name="JsonSchemaGenerator", ns="Generator",
+        title="utype/specs/json_schema/generator.py (_get_format, _get_primitive)",
+        funcs=[{"py": "_get_format", "lean": "get_format", "arity": 2, "module_tables": _constant_tables(repo)},
+               {"py": "_get_primitive", "lean": "get_primitive", "arity": 2, "module_tables": _constant_tables(repo)}],
+        gate_ok=gate_ok)
+
+
 def gen_encode(repo: Path, notes: list, gate_ok: bool) -> str:
     """Gen/Encode.lean: `js_unsafe` of utils/encode.py (the module constants it compares with are inlined)"""
     src = "utype/utils/encode.py"
@@ -1719,6 +1773,7 @@ def main():
     files["Registry.lean"] = gen_registry(repo, notes, unprov_ok)
     files["Encode.lean"] = gen_encode(repo, notes, unprov_ok)
     files["Parse.lean"] = gen_parse(repo, notes, unprov_ok)
+    files["Generator.lean"] = gen_generator(repo, notes, unprov_ok)
     files["JsonTables.lean"] = gen_json_tables(repo, notes)
     files["CodecTables.lean"] = gen_codec_tables(repo, notes)
     files["NOTES.txt"] = "\n".join(notes) + ("\n" if notes else "")
